@@ -169,13 +169,28 @@ Definition begin_magic (l : text) : option text :=
   end.
 
 (* header line  ^.+:\ .+(?:\r?\n)  and the split done by
-   re.findall('^(?P<key>.+): (?P<value>.+?)\r?$\n?'): the key is greedy (longest key that still
-   leaves ": " and at least one character), the value is lazy up to an optional final \r *)
+   re.findall('^(?P<key>.+?): (?P<value>.+?)\r?$\n?'): the key is lazy (shortest key of at least one
+   character that is followed by ": " and at least one more character), the value is lazy up to an
+   optional final \r *)
 Fixpoint split_hdr (l : text) : option (text * text) :=
   match l with
   | [] => None
   | c :: r =>
-    match split_hdr r with
+    match r with
+    | a :: b :: v =>
+      if (a =? 58) && (b =? 32) && negb (is_nil v) then Some ([c], v)
+      else match split_hdr r with Some (k, v') => Some (c :: k, v') | None => None end
+    | _ => None
+    end
+  end.
+
+(* the split before commit 0c3c3b8: greedy key group (?P<key>.+), i.e. the LAST ": " that still leaves
+   a character for the value; kept for the refutation theorem *)
+Fixpoint split_hdr_prefix (l : text) : option (text * text) :=
+  match l with
+  | [] => None
+  | c :: r =>
+    match split_hdr_prefix r with
     | Some (k, v) => Some (c :: k, v)
     | None =>
       match r with
@@ -191,6 +206,8 @@ Definition hdr_value (r : text) : text := match strip_cr r with [] => r | v => v
 
 Definition parse_hdr (l : text) : text * text :=
   match split_hdr l with Some (k, v) => (k, hdr_value v) | None => ([], []) end.
+Definition parse_hdr_prefix (l : text) : text * text :=
+  match split_hdr_prefix l with Some (k, v) => (k, hdr_value v) | None => ([], []) end.
 
 (* collections.OrderedDict(list of pairs): a repeated key keeps its first position, takes the last value *)
 Fixpoint od_set (d : list (text * text)) (k v : text) : list (text * text) :=
@@ -427,10 +444,10 @@ Fixpoint has_sep (v : text) : bool :=
   | [] => false
   end.
 
-(* armor header pairs that read back as written: non-empty printable key and value, no ": " in the value *)
+(* armor header pairs that read back as written: non-empty printable key and value, no ": " in the key *)
 Definition wf_header (kv : text * text) : bool :=
   negb (is_nil (fst kv)) && negb (is_nil (snd kv)) && forallb plain_char (fst kv) && forallb plain_char (snd kv)
-  && negb (has_sep (snd kv)).
+  && negb (has_sep (fst kv)).
 Definition wf_headers (h : list (text * text)) : Prop := forallb wf_header h = true /\ NoDup (map fst h).
 
 Definition signed_magic : text := Eval vm_compute in s2z "SIGNED MESSAGE".
